@@ -45,12 +45,14 @@ def build(geom):
     return img, info, payloads
 
 
-def open_container(img, kind, writable=True, cmac_base=None):
+def open_container(img, kind, writable=True, cmac_base=None, start=0):
+    """start: the container begins at that position of a larger file, and the file object is handed over standing there"""
     from pyctr.crypto.engine import CryptoEngine
     from pyctr.type.save.diff import DIFF
     from pyctr.type.save.disa import DISA
     pyenv.uninstall_fake_boot9()
-    bio = io.BytesIO(img)
+    bio = io.BytesIO(bytes((i * 37 + 11) & 0xFF for i in range(start)) + img)
+    bio.seek(start)
     if not writable:
         bio.writable = lambda: False
     e = CryptoEngine(setup_b9_keys=False)
@@ -137,3 +139,44 @@ def heal_neighbour_case(ctx, case, rng, img, info, payloads, geom):
                      f'(still the verdict cached before the write?)')
         c4.close()
         ctx.stat('heal_neighbour_histories')
+
+
+def positioned_case(ctx, case, rng, img, info, payloads, geom, write=False):
+    """the same container at a non-zero position of a larger file (a file object handed over standing at the container's first byte):
+    every view is the view of the container at position 0; written through, the bytes in front stay and the container part becomes
+    what the same writes make of the container alone"""
+    start = rng.choice([0x40, 0x200, 0x233, 1])
+    ncase = dict(case, start=start)
+    try:
+        c, bio = open_container(img, geom['kind'], start=start)
+    except Exception as ex:
+        ctx.diff('oracle', 'positioned:open-raises', ncase, 'a container', pyenv.errname(ex) + ': ' + str(ex)[:60], f'container at file position {start:#x} rejected')
+        return
+    ctx.stat('positioned_containers')
+    try:
+        for pi, ip in enumerate(info['partitions']):
+            got_dpfs = c.partitions[pi].dpfs_lv3_file.read()
+            got = lv4_reader(c, pi).read()
+            if got_dpfs != ip['dpfs_view'] or got != payloads[pi]:
+                ctx.diff('oracle', 'positioned:read', dict(ncase, part=pi), 'the views of the container', 'other bytes',
+                         f'container at file position {start:#x}: partition {pi} ' + ('data view' if got_dpfs != ip['dpfs_view'] else 'verified level-4 view')
+                         + ' differs from the same container at position 0')
+        if write:
+            c0, bio0 = open_container(img, geom['kind'])
+            pi = rng.randrange(len(info['partitions']))
+            for _ in range(3):
+                off = rng.randrange(len(payloads[pi]))
+                data = pyenv.rbytes(rng, rng.choice([1, 16, 33, 200]))
+                for cc_ in (c, c0):
+                    r = lv4_reader(cc_, pi)
+                    r.seek(off)
+                    r.write(data)
+            front = bytes((i * 37 + 11) & 0xFF for i in range(start))
+            if bio.getvalue()[:start] != front or bio.getvalue()[start:] != bio0.getvalue():
+                k = next((i for i, (x, y) in enumerate(zip(bio.getvalue()[start:], bio0.getvalue())) if x != y), -1)
+                ctx.diff('oracle', 'positioned:write', dict(ncase, part=pi), 'the bytes in front untouched, the container as after the same writes at position 0',
+                         'bytes in front changed' if bio.getvalue()[:start] != front else f'container differs at {k:#x}',
+                         f'container at file position {start:#x}: writes through the level-4 view landed somewhere else')
+            c0.close()
+    finally:
+        c.close()
